@@ -46,6 +46,7 @@ enum Ty {
     Res(Box<Ty>),   // Result<T, _>
     Range,          // Range<usize> as a value: (start, end)
     Tup(Vec<Ty>),   // tuple type
+    Str,    // &str / String / Cow<str>: the list of its scalar values, indexed by UTF-8 byte offsets (RsPrelude.rs_str_slice)
     Text,   // &T where T: TextSource
     Source, // &D where D: BidiDataSource
     Other,
@@ -95,7 +96,9 @@ fn ty_of_type(t: &Type, g: &syn::Generics) -> Ty {
                 "bool" => Ty::Bool,
                 "Level" | "Self" => Ty::Level,
                 "BidiClass" => Ty::Class,
-                "Range" => Ty::Range,
+                "Range" | "LevelRun" => Ty::Range,
+                "str" | "String" => Ty::Str,
+                "Cow" => Ty::Str,
                 "Result" => {
                     if let syn::PathArguments::AngleBracketed(a) = &seg.arguments {
                         if let Some(syn::GenericArgument::Type(t)) = a.args.first() {
@@ -289,6 +292,7 @@ impl<'a> Tr<'a> {
                 }
             }
             Expr::Index(ix) => match self.infer(&ix.expr) {
+                Ty::Str => Ty::Str,
                 Ty::Slice(t) => {
                     if let Expr::Range(_) = strip(&ix.index) {
                         Ty::Slice(t)
@@ -335,6 +339,12 @@ impl<'a> Tr<'a> {
                     "len" => return Ty::Word,
                     "iter" | "into_iter" | "copied" | "cloned" | "clone" | "take" | "skip" => return self.infer(&m.receiver),
                     "is_empty" => return Ty::Bool,
+                    "chars" | "rev" if matches!(self.infer(&m.receiver), Ty::Str | Ty::Slice(_)) => {
+                        return match self.infer(&m.receiver) {
+                            Ty::Str => Ty::Slice(Box::new(Ty::Char)),
+                            t => t,
+                        };
+                    }
                     "get" => {
                         if let Ty::Slice(t) = self.infer(&m.receiver) {
                             return Ty::Opt(t);
@@ -374,8 +384,14 @@ impl<'a> Tr<'a> {
                     if n == "from_u32" {
                         return Ty::Opt(Box::new(Ty::Char));
                     }
+                    if n == "from" && p.path.segments.len() == 2 && matches!(p.path.segments[0].ident.to_string().as_str(), "usize" | "u32" | "u64" | "i32" | "isize") {
+                        return Ty::Word;
+                    }
                     if (n == "new" || n == "with_capacity") && p.path.segments.len() == 2 && p.path.segments[0].ident == "Vec" {
                         return Ty::Slice(Box::new(Ty::Unknown));
+                    }
+                    if (n == "new" || n == "with_capacity") && p.path.segments.len() == 2 && p.path.segments[0].ident == "String" {
+                        return Ty::Str;
                     }
                     if (n == "max" || n == "min") && c.args.len() == 2 {
                         return self.num_ty(&c.args[0], &c.args[1]);
@@ -504,6 +520,17 @@ impl<'a> Tr<'a> {
                     xs.push(self.expr(e, b)?);
                 }
                 Ok(format!("({})", xs.join(", ")))
+            }
+            Expr::Index(ix) if self.infer(&ix.expr) == Ty::Str => {
+                // text[range]: a sub-string by byte offsets (panics off a character boundary or out of bounds)
+                if self.infer(&ix.index) != Ty::Range {
+                    return Err("indexing a str by something other than a Range value".into());
+                }
+                let t = self.expr(&ix.expr, b)?;
+                let r = self.expr(&ix.index, b)?;
+                let x = self.fresh("ss");
+                b.push((x.clone(), format!("rs_str_slice {} {}", t, r)));
+                Ok(x)
             }
             Expr::Index(ix) => {
                 if let Expr::Range(r) = strip(&ix.index) {
@@ -810,12 +837,19 @@ impl<'a> Tr<'a> {
             let y = self.expr_h(&c.args[1], &t, b)?;
             return Ok(format!("(Nat.{} {} {})", n, x, y));
         }
-        if segs.len() == 2 && (segs[0] == "Vec" || segs[0] == "SmallVec") && (n == "new" || n == "with_capacity") {
+        if segs.len() == 2 && (segs[0] == "Vec" || segs[0] == "SmallVec" || segs[0] == "String") && (n == "new" || n == "with_capacity") {
             // the argument of with_capacity is evaluated (it may have effects), the capacity itself is not observable
             for a in &c.args {
                 let _ = self.expr(a, b)?;
             }
             return Ok("[]".into());
+        }
+        // usize::from(x) / u32::from(x) ...: a widening conversion between unsigned integers keeps the value
+        if segs.len() == 2 && n == "from" && matches!(segs[0].as_str(), "usize" | "u32" | "u64" | "i32" | "isize") && c.args.len() == 1 {
+            return match self.infer(&c.args[0]) {
+                Ty::U8 | Ty::U16 | Ty::Word | Ty::Char => self.expr(&c.args[0], b),
+                t => Err(format!("{}::from on {:?}", segs[0], t)),
+            };
         }
         if segs.len() == 2 && segs[0] == "char" && n == "from_u32" && c.args.len() == 1 {
             let a = self.expr(&c.args[0], b)?;
@@ -950,6 +984,16 @@ impl<'a> Tr<'a> {
                 return Ok(format!("(rs_{} ts {})", name, l));
             }
             "iter" | "into_iter" | "clone" | "copied" | "cloned" if m.args.is_empty() => return self.expr(&m.receiver, b),
+            "chars" if m.args.is_empty() && rty == Ty::Str => return self.expr(&m.receiver, b),
+            "rev" if m.args.is_empty() && matches!(rty, Ty::Slice(_)) => {
+                let l = self.expr(&m.receiver, b)?;
+                return Ok(format!("(rev {})", l));
+            }
+            "into" if m.args.is_empty() && rty == Ty::Str => return self.expr(&m.receiver, b),
+            "len" if m.args.is_empty() && rty == Ty::Range => {
+                let r = self.expr(&m.receiver, b)?;
+                return Ok(format!("(snd {} - fst {})", r, r));
+            }
             "get" if m.args.len() == 1 && matches!(rty, Ty::Slice(_)) => {
                 let l = self.expr(&m.receiver, b)?;
                 let i = self.expr_h(&m.args[0], &Ty::Word, b)?;
@@ -1743,7 +1787,7 @@ impl<'a> Tr<'a> {
             Expr::ForLoop(fl) => self.flow_for(fl, rest, fin),
             Expr::Macro(m) => self.flow_macro(&m.mac, rest, fin),
             Expr::Tuple(t) if t.elems.is_empty() => self.flow(rest, fin),
-            Expr::MethodCall(m) if m.method == "extend" && m.args.len() == 1 && local_name(&m.receiver).map(|v| self.is_mut_local(&v)).unwrap_or(false) => {
+            Expr::MethodCall(m) if m.method == "extend" && m.args.len() == 1 && local_name(&m.receiver).map(|v| self.is_mut_local(&v) && self.lookup_local(&v) != Some(Ty::Str)).unwrap_or(false) => {
                 // v.extend(repeat(x).take(n))
                 let v = coq_ident(&local_name(&m.receiver).unwrap());
                 let (x, n) = match strip(&m.args[0]) {
@@ -1758,6 +1802,15 @@ impl<'a> Tr<'a> {
                 let nv = self.expr_h(&n, &Ty::Word, &mut b)?;
                 let k = self.flow(rest, fin)?;
                 Ok(wrap(&b, &format!("let {} := {} ++ repeat {} {} in {}", v, v, xv, nv, k)))
+            }
+            Expr::MethodCall(m) if matches!(m.method.to_string().as_str(), "push_str" | "extend") && m.args.len() == 1
+                && local_name(&m.receiver).map(|v| self.is_mut_local(&v) && self.lookup_local(&v) == Some(Ty::Str)).unwrap_or(false) => {
+                // String::push_str(&s) / String::extend(chars): append
+                let v = coq_ident(&local_name(&m.receiver).unwrap());
+                let mut b = vec![];
+                let x = self.expr(&m.args[0], &mut b)?;
+                let k = self.flow(rest, fin)?;
+                Ok(wrap(&b, &format!("let {} := {} ++ {} in {}", v, v, x, k)))
             }
             Expr::MethodCall(m) if matches!(m.method.to_string().as_str(), "push" | "pop" | "clear") && local_name(&m.receiver).map(|v| self.is_mut_local(&v)).unwrap_or(false) => {
                 let v = coq_ident(&local_name(&m.receiver).unwrap());
@@ -2273,6 +2326,7 @@ fn ty_coq(t: &Ty) -> String {
         Ty::Source => "rs_data_source".into(),
         Ty::Rec(n) | Ty::Enum(n) => n.clone(),
         Ty::Range => "(nat * nat)".into(),
+        Ty::Str => "list N".into(),
         Ty::Tup(ts) => format!("({})", ts.iter().map(|t| ty_coq(t)).collect::<Vec<_>>().join(" * ")),
         _ => "_".into(),
     }
@@ -2314,7 +2368,7 @@ impl<'ast> Visit<'ast> for Writes {
         syn::visit::visit_expr_binary(self, b);
     }
     fn visit_expr_method_call(&mut self, m: &'ast syn::ExprMethodCall) {
-        if matches!(m.method.to_string().as_str(), "push" | "pop" | "clear" | "truncate" | "extend") {
+        if matches!(m.method.to_string().as_str(), "push" | "pop" | "clear" | "truncate" | "extend" | "push_str") {
             if let Some(v) = local_name(&m.receiver) {
                 self.set.insert(v);
             }
@@ -2763,6 +2817,7 @@ pub const FUNCS: &[(&str, &str, &str)] = &[
     ("lib", "ParagraphBidiInfo", "has_rtl"),
     ("lib", "ParagraphBidiInfo", "direction"),
     ("lib", "BidiInfo", "has_rtl"),
+    ("lib", "", "reorder_line"),
     ("lib", "BidiInfo", "reorder_visual"),
     ("lib", "ParagraphBidiInfo", "reorder_visual"),
 ];
@@ -3026,7 +3081,9 @@ fn translate_fn(
             Ty::Text => "list N".to_string(),
             Ty::Source => "rs_data_source".to_string(),
             Ty::Range => "(nat * nat)".to_string(),
+            Ty::Str => "list N".to_string(),
             Ty::Slice(e) => match **e {
+                Ty::Range => "list (nat * nat)".to_string(),
                 Ty::Level | Ty::U8 | Ty::Word => "list nat".to_string(),
                 Ty::Class => "list bclass".to_string(),
                 Ty::U16 | Ty::Char => "list N".to_string(),
